@@ -314,7 +314,7 @@ class Report:
             'evaluations': self.evaluations,
             'distinct_nontrivial': len(self.nontrivial),
             'rule': rule,
-            'samples': self.samples[:5],
+            'samples': self.samples[:5] or [{'note': 'no observation matched the sampling filter of this check', 'counts': self.counts}],
             'model_checking_runs': ctx.mc,
             'counts': self.counts,
             'known_findings_hit': self.hit,
